@@ -17,7 +17,15 @@ pub fn record(seed: u64, streams: u64, target: usize, path: &str) -> Value {
     let mut r = Rng::new(seed);
     let (mut calls, mut bytes) = (0u64, 0u64);
     for s in 0..streams {
-        let input = if s % 5 == 4 { crate::gen::gen_stream(&mut r, target, Flavor::Full) } else { gen_styled_text(&mut r, target, false) };
+        let mut input = if s % 5 == 4 { crate::gen::gen_stream(&mut r, target, Flavor::Full) } else { gen_styled_text(&mut r, target, false) };
+        if s == 1 {
+            // a hyperlink whose target is longer than 4 KiB (any amount of string payload is still payload), text on both sides
+            let mut v = b"a\x1b[32m\x1b]8;;https://example.com/".to_vec();
+            v.extend((0..5000).map(|i| b'a' + (i % 26) as u8));
+            v.extend_from_slice(b"\x1b\\link\x1b]8;;\x1b\\ b\x1b[0m\n");
+            v.extend_from_slice(&input);
+            input = v;
+        }
         bytes += input.len() as u64;
         let style = *r.pick(&[0usize, 1, 2, 3, 5, 8, 17, 64]);
         let cuts = gen_partition(&mut r, input.len(), style);
@@ -27,6 +35,12 @@ pub fn record(seed: u64, streams: u64, target: usize, path: &str) -> Value {
         for c in cuts {
             let chunk = &input[pos..pos + c];
             pos += c;
+            // every third call goes to a CLONE of the extractor, which then takes its place: a copy made between two calls -
+            // inside a sequence, inside a character - carries everything the original knew
+            if calls % 3 == 2 {
+                let y = x.clone();
+                x = y;
+            }
             let res = catch_unwind(AssertUnwindSafe(|| x.extract_next(chunk).collect::<Vec<_>>()));
             calls += 1;
             let ev = match res {
